@@ -99,6 +99,7 @@ def main():
     except Exception:
         traceback.print_exc()
         return 2
+    ties_broken += [t for t in getattr(ctx, 'ties_broken', []) if t not in ties_broken]      # shape assertions evaluated inside a check
     # extended search when a tie broke but no failing input has been found yet
     if ties_broken and not ctx.violations and 'extended' in spec:
         log('tie broken (%s); running the extended search' % '; '.join(ties_broken)[:300])
